@@ -220,14 +220,21 @@ func caseReady(s *Sched, t *Task, c Case) bool {
 	return k.n > 0 || k.closed
 }
 
+// A rendezvous on an unbuffered channel needs one side to be asleep on it: a
+// goroutine executing its select finds a case ready only if the partner is
+// already parked in the channel's wait queue. Two selects that have both merely
+// been reached (each with some other case ready, so neither went to sleep) cannot
+// pair up.
+func mayPair(a, b *opSelect) bool { return a.parkedAt > 0 || b.parkedAt > 0 }
+
 // partners appends the rendezvous alternatives of receive case ci of task t.
-func partners(s *Sched, t *Task, ci int, k *chanCore, out []Alt) []Alt {
+func partners(s *Sched, t *Task, o *opSelect, ci int, k *chanCore, out []Alt) []Alt {
 	for _, p := range s.sorted {
 		if p == t || p.finished {
 			continue
 		}
 		ps, ok := p.pend.(*opSelect)
-		if !ok {
+		if !ok || !mayPair(o, ps) {
 			continue
 		}
 		for pj, pc := range ps.cases {
@@ -240,7 +247,7 @@ func partners(s *Sched, t *Task, ci int, k *chanCore, out []Alt) []Alt {
 }
 
 // hasPartner reports whether case c of task t could complete by rendezvous.
-func hasPartner(s *Sched, t *Task, c Case) bool {
+func hasPartner(s *Sched, t *Task, o *opSelect, c Case) bool {
 	k := c.core()
 	if k == nil || k.wrap != nil || k.capn != 0 || k.closed {
 		return false
@@ -250,7 +257,7 @@ func hasPartner(s *Sched, t *Task, c Case) bool {
 			continue
 		}
 		ps, ok := p.pend.(*opSelect)
-		if !ok {
+		if !ok || !mayPair(o, ps) {
 			continue
 		}
 		for _, pc := range ps.cases {
@@ -279,8 +286,8 @@ func (o *opSelect) enabled(s *Sched, t *Task, out []Alt) []Alt {
 		}
 		if k.capn == 0 && k.wrap == nil && !k.closed {
 			if !c.isSend() {
-				out = partners(s, t, i, k, out)
-			} else if hasPartner(s, t, c) {
+				out = partners(s, t, o, i, k, out)
+			} else if hasPartner(s, t, o, c) {
 				// enumerated from the receiver's side
 				rendezvousPossible = true
 			}
